@@ -13,9 +13,15 @@ an ordered subscription skips rows whose link target is neither completed nor ex
 halves are proved below for every state and observation.  The full history statement fails in the
 corners recorded in KNOWN_FINDINGS.txt (a seek re-opens an acknowledged predecessor, after which a
 later same-key delivery can overtake it); `C05_full_statement` is kept visible and the proved part is
-named `…_partial`.
+named `…_partial`: `C05_ordered_partial` proves the statement's conclusion for every history, of any
+length, whose steps satisfy the refinement obligation `Ord.stepOk` (Model/Ordered.lean) — which the two
+seeks and a change of the retention do not, which is proved below for the operations that leave the
+deliveries alone, and which the driver evaluates on every step of every replayed history for the
+others (pull, publish, ack, nack, deadline changes, dead-letter sweep, prune and expiry jobs,
+subscription creation and deletion).
 -/
 import Mmmbbb.Properties.C01
+import Mmmbbb.Proofs.Ordered
 namespace Mmmbbb
 
 /-- **C05 (the pull honours the link)**: on an ordered subscription every delivery a pull hands out
@@ -121,6 +127,167 @@ theorem C05_link_choice (db : Db) (subs : List Sub) (m : Msg) (now : Time) (fwds
       unfold newestIn at hnew
       have := List.all_eq_true.mp hnew d hmem
       simpa using this
+
+/-! ### the global statement, for histories that refine the ordered-delivery steps -/
+
+/-- every step of the run from `st` satisfies the refinement obligation (with the clock assumption:
+    a keyed row is stamped strictly later than the same-key rows its subscription already has) -/
+def ordStepsOk : St → List Op → Bool
+  | _, [] => true
+  | st, op :: r =>
+    Ord.stepOk true st.db st.now (step st op).1.db (step st op).1.now && ordStepsOk (step st op).1 r
+
+theorem run_cons (st : St) (op : Op) (r : List Op) : run st (op :: r) = run (step st op).1 r := rfl
+
+theorem ordInv_run : ∀ (ops : List Op) (st : St), Ord.Inv st.db st.now → ordStepsOk st ops = true →
+    Ord.Inv (run st ops).db (run st ops).now
+  | [], _, h, _ => h
+  | op :: r, st, h, hok => by
+    simp only [ordStepsOk, Bool.and_eq_true] at hok
+    rw [run_cons]
+    exact ordInv_run r _ (h.step hok.1) hok.2
+
+theorem keyOf_of_bind {db : Db} {d : Delivery} {k : String} (hk : k ≠ "")
+    (h : (db.msgById d.msgId).bind (·.orderKey) = some k) : Ord.keyOf db d = some k := by
+  unfold Ord.keyOf
+  cases hm : db.msgById d.msgId with
+  | none => rw [hm] at h; cases h
+  | some m =>
+    rw [hm] at h
+    simp only [Option.bind_some] at h
+    simp only [h]
+    have : (k == "") = false := by simpa using hk
+    simp [this]
+
+/-- **C05 (global, partial)**: after any history — of any length, with any interleaving of publishes
+    (keyed, un-keyed, other keys), pulls by any number of pullers, acks, nacks, deadline changes,
+    dead-lettering, prune and expiry jobs — every step of which refines the ordered-delivery steps,
+    a keyed message of a live ordered subscription is not deliverable (no pull returns it) while an
+    earlier-published message with the same key is outstanding on that subscription.
+    Missing for the full statement: histories with a Seek (the recorded findings) or a change of the
+    message retention, and the clock assumption when it fails (two same-key rows of one subscription
+    stamped with the same instant). -/
+theorem C05_ordered_partial (ops : List Op) (h : ordStepsOk {} ops = true) :
+    let st := run {} ops
+    ∀ s ∈ st.db.subs, s.live = true → s.ordered = true → ∀ d ∈ st.db.dels, ∀ e ∈ st.db.dels,
+      d.subId = s.id → e.subId = s.id →
+      (∃ k, k ≠ "" ∧ (st.db.msgById d.msgId).bind (·.orderKey) = some k ∧ (st.db.msgById e.msgId).bind (·.orderKey) = some k) →
+      e.publishedAt < d.publishedAt → e.isOpen st.now = true → st.db.eligible s st.now d = false := by
+  intro st s hs hlive hord d hd e he hds hes hkey hlt hopen
+  have hinv : Ord.Inv st.db st.now := ordInv_run ops {} (Ord.Inv.init 0) h
+  obtain ⟨k, hk, h1, h2⟩ := hkey
+  have k1 := keyOf_of_bind hk h1
+  have k2 := keyOf_of_bind hk h2
+  exact hinv.ordered s hs hlive hord d e hd he hds hes (k1.trans k2.symm) (by rw [k1]; simp) hlt hopen
+
+/-- consequently no pull of such a history returns the later message -/
+theorem C05_ordered_partial_pull (ops : List Op) (h : ordStepsOk {} ops = true)
+    {sub : String} {max maxBytes : Nat} {strict : Bool} {wait : Int} {obs : PullObs} {o : TxOut PullRes} {now' : Time}
+    (hp : pull (run {} ops).db (run {} ops).now sub max maxBytes strict wait obs = .ok (o, now'))
+    (s : Sub) (hs : (run {} ops).db.liveSubByName sub = some s) (hord : s.ordered = true) :
+    ∀ x ∈ o.val.delivered, ∀ d, (run {} ops).db.delById x.1 = some d →
+      ∀ e ∈ (run {} ops).db.dels, e.subId = s.id →
+      (∃ k, k ≠ "" ∧ ((run {} ops).db.msgById d.msgId).bind (·.orderKey) = some k ∧
+        ((run {} ops).db.msgById e.msgId).bind (·.orderKey) = some k) →
+      e.publishedAt < d.publishedAt → e.isOpen (run {} ops).now = false := by
+  intro x hx d hd e he hes hkey hlt
+  obtain ⟨s', hs', hall⟩ := pull_delivered_spec hp
+  rw [hs] at hs'; injection hs' with hs'; subst hs'
+  obtain ⟨c, hc, helig, _⟩ := hall x hx
+  rw [hd] at hc; injection hc with hc; subst hc
+  have hsm : s ∈ (run {} ops).db.subs := List.mem_of_find?_eq_some hs
+  have hlive : s.live = true := by
+    have := List.find?_some hs
+    simp only [Bool.and_eq_true] at this
+    exact this.2
+  have hdm : d ∈ (run {} ops).db.dels := List.mem_of_find?_eq_some hd
+  have hds : d.subId = s.id := by
+    unfold Db.eligible at helig
+    simp only [Bool.and_eq_true, beq_iff_eq] at helig
+    exact helig.1.1.1
+  cases hopen : e.isOpen (run {} ops).now with
+  | false => rfl
+  | true =>
+    have := C05_ordered_partial ops h s hsm hlive hord d hdm e he hds hes hkey hlt hopen
+    -- eligibility in the table whose subscription expiry was refreshed is eligibility in the table
+    have hsame : (refreshExpiry (run {} ops).db s (run {} ops).now).eligible s (run {} ops).now d =
+        (run {} ops).db.eligible s (run {} ops).now d := rfl
+    rw [hsame, this] at helig; cases helig
+
+/-! the obligation holds outright for the operations that leave deliveries, subscriptions and
+    messages alone (the others are evaluated at run time) -/
+
+theorem C05_refines_advance (st : St) (d : Int) (hd : 0 ≤ d) :
+    Ord.stepOk true st.db st.now (step st (.advance d)).1.db (step st (.advance d)).1.now = true := by
+  apply Ord.stepOk_of_same <;> simp only [step]
+  · show st.now ≤ st.now + d
+    unfold Time at *; omega
+  all_goals rfl
+
+/-- an operation that fails (or otherwise leaves the state as it was) -/
+theorem C05_refines_noop (st : St) (op : Op) (heq : (step st op).1 = st) :
+    Ord.stepOk true st.db st.now (step st op).1.db (step st op).1.now = true := by
+  rw [heq]
+  exact Ord.stepOk_of_same st.db st.now st.db st.now (Int.le_refl _) rfl rfl rfl
+
+theorem stepOk_finish {α} (st : St) (r : Except Err (TxOut α)) (render : α → String)
+    (hsame : ∀ o, r = .ok o → o.db.dels = st.db.dels ∧ o.db.subs = st.db.subs ∧ o.db.msgs = st.db.msgs) :
+    Ord.stepOk true st.db st.now (finish st r render).1.db (finish st r render).1.now = true := by
+  cases r with
+  | error e => exact Ord.stepOk_of_same st.db st.now st.db st.now (Int.le_refl _) rfl rfl rfl
+  | ok o =>
+    obtain ⟨h1, h2, h3⟩ := hsame o rfl
+    exact Ord.stepOk_of_same st.db st.now o.db st.now (Int.le_refl _) h1 h2 h3
+
+theorem C05_refines_createTopic (st : St) (n : String) (l : StrMap) (i : Id) :
+    Ord.stepOk true st.db st.now (step st (.createTopic n l i)).1.db (step st (.createTopic n l i)).1.now = true := by
+  apply stepOk_finish
+  intro o h
+  unfold createTopic at h
+  split at h
+  · cases h
+  · split at h
+    · cases h
+    · injection h with h; subst h; exact ⟨rfl, rfl, rfl⟩
+
+theorem C05_refines_deleteTopic (st : St) (n : String) :
+    Ord.stepOk true st.db st.now (step st (.deleteTopic n)).1.db (step st (.deleteTopic n)).1.now = true := by
+  apply stepOk_finish
+  intro o h
+  unfold deleteTopic at h
+  simp only at h
+  split at h
+  · cases h
+  · injection h with h; subst h; exact ⟨rfl, rfl, rfl⟩
+
+theorem C05_refines_deleteSnap (st : St) (n : String) :
+    Ord.stepOk true st.db st.now (step st (.deleteSnap n)).1.db (step st (.deleteSnap n)).1.now = true := by
+  apply stepOk_finish
+  intro o h
+  unfold deleteSnapshot at h
+  split at h
+  · cases h
+  · injection h with h; subst h; exact ⟨rfl, rfl, rfl⟩
+
+/-- non-vacuity: an ordered subscription, two messages of key "k" in one request, the first is pulled
+    and acknowledged, then the second is pulled — every step satisfies the obligation (and while the
+    first is outstanding the model's pull is given, and accepts, only the first as candidate) -/
+def exampleOrderedHistory : List Op := [
+  .createTopic "projects/p/topics/t" [] 1,
+  .createSub { name := "projects/p/subscriptions/o", topicName := "projects/p/topics/t", ttl := 1000000000000,
+               messageTtl := 100000000000, ordered := true, labels := [], pushEndpoint := "", minBackoff := 0,
+               maxBackoff := 0, filter := "", maxAttempts := 0, dlTopic := "" } 2,
+  .publish "projects/p/topics/t" 1 [{ id := 10, payload := "a", plen := 1, attrs := [], orderKey := "k", fwds := [⟨2, 11, none⟩] },
+                                    { id := 12, payload := "b", plen := 1, attrs := [], orderKey := "k", fwds := [⟨2, 13, some 11⟩] }],
+  .pull "projects/p/subscriptions/o" 10 1000 false 1 { cands := [11], delays := [(11, 11000000000)], fwds := [] },
+  .ack [11],
+  .advance 5,
+  .pull "projects/p/subscriptions/o" 10 1000 false 1 { cands := [13], delays := [(13, 11000000000)], fwds := [] }]
+
+example : ordStepsOk {} exampleOrderedHistory = true := by decide
+example : (outs {} exampleOrderedHistory).map (·.ok) = [true, true, true, true, true, true, true] := by decide
+/-- a seek that re-opens the acknowledged first message does not satisfy the obligation -/
+example : ordStepsOk {} (exampleOrderedHistory ++ [.seekTime "projects/p/subscriptions/o" (-1)]) = false := by decide
 
 /-- the statement of the property, for the record: in every state reachable by any history, on an
     ordered subscription no keyed delivery is eligible while an earlier same-key delivery is open -/
